@@ -110,9 +110,15 @@ def membership_guard(ctx, f, step):
                         and live_of(b[2][1]):
                     return 'symbol equals the first live letter of the same vertex'
         return None
-    # (2) sym drawn by iteration from the live letters
+    # (2) sym drawn by iteration from the live letters, or from a filtered sub-collection of them
     if sym[0] == 'iter' and letters_of(strip_wrappers(sym[1])):
         return 'symbol iterates over the live letters of the same vertex'
+    if sym[0] == 'iter':
+        src = strip_wrappers(sym[1])
+        if src[0] == 'comp' and src[1] in ('list', 'gen', 'set') and len(src[3]) == 1 and src[3][0][1]:
+            unfiltered = ('comp', 'list', src[2], ((src[3][0][0], ()),))
+            if letters_of(unfiltered):
+                return 'symbol iterates over a filtered selection of the live letters of the same vertex'
     # (1) path conditions of the step itself
     for atom, pol in ctx.conds(f, step.node):
         h = atom_establishes(atom, pol)
@@ -507,8 +513,9 @@ def exc_name(t):
     return show(t)
 
 
-def summarise(ctx, f, loop, path, kind):
-    """effect summary of one path of a coder loop"""
+def summarise(ctx, f, loop, path, kind, case=None):
+    """effect summary of one path of a coder loop (non-constant increments are evaluated under the abstract case)"""
+    atom = case_atom(ctx, f, loop, case) if case is not None else None
     events, env = walk_path(f, path)
     stepnodes = {s.node.id: s for s in loop.steps}
     s = {'exit': kind, 'steps': 0, 'inc': {}, 'stores': {}, 'appends': {}, 'raise': None, 'division': [],
@@ -529,7 +536,11 @@ def summarise(ctx, f, loop, path, kind):
             if e.extra[0] == 'c' and isinstance(e.extra[1], int):
                 s['inc'][e.name] = s['inc'].get(e.name, 0) + e.extra[1]
             else:
-                s['inc'].setdefault(e.name, 0)
+                v = feval(e.extra, atom) if atom is not None else UNKNOWN
+                if v is not UNKNOWN and isinstance(v, int) and not isinstance(v, bool):
+                    s['inc'][e.name] = s['inc'].get(e.name, 0) + v       # e.g. cursor += radix // 2
+                else:
+                    s['inc'].setdefault(e.name, 0)
         elif e.kind in ('store', 'augstore'):
             s['stores'].setdefault(e.name, []).append((e.extra, e.term))
         elif e.kind == 'append':
@@ -586,7 +597,7 @@ def r_deg(ctx, want):
                     if member is not None:
                         case['member'] = member
                     fps = feasible_paths(ctx, f, loop, case)
-                    sums = [summarise(ctx, f, loop, p, k) for p, k in fps]
+                    sums = [summarise(ctx, f, loop, p, k, case) for p, k in fps]
                     tab[(deg, member)] = sums
             tables[(name, loop.mode)] = (f, loop, tab)
             check_table(ctx, name, f, loop, tab)
@@ -780,10 +791,16 @@ def classify_inv(ctx, f, t, state, acc):
             if ls[1] == state and ls[0] == acc:
                 return ('rank', t[2][0])
         return None
-    # where(P == r)[0][0]
+    # where(P == r)[0][0]   |   argmax(P == r)  (first position of the match; P is a permutation, so there is exactly one)
+    c = None
     if t[0] == 'sub' and t[2] == ('c', 0) and t[1][0] == 'sub' and t[1][2] == ('c', 0) and \
             is_call(t[1][1], 'numpy.where', 'numpy.nonzero', 'numpy.argwhere') and len(t[1][1][2]) == 1:
         c = t[1][1][2][0]
+    elif is_call(t, 'numpy.argmax') and len(t[2]) == 1 and not t[3] and t[2][0][0] == 'cmp':
+        c = t[2][0]
+    elif t[0] == 'sub' and t[2] == ('c', 0) and is_call(t[1], 'numpy.flatnonzero') and len(t[1][2]) == 1:
+        c = t[1][2][0]
+    if c is not None:
 
         def letter_index(x):
             x = strip_int(x)
@@ -853,7 +870,7 @@ def r_sel(ctx, only=('encode', 'decode')):
                         continue
                     verdicts = set()
                     for p, k in fps:
-                        s = summarise(ctx, f, loop, p, k)
+                        s = summarise(ctx, f, loop, p, k, case)
                         if name == 'encode':
                             verdicts.add(sel_encode(ctx, f, loop, s, deg, sh, state, acc))
                         else:
@@ -1111,7 +1128,7 @@ def r_endian(ctx):
             fps = [(p, k) for p, k in feasible_paths(ctx, dec, loop, case) if k == 'back']
             okall, why, npaths = True, '', 0
             for p, k in fps:
-                s = summarise(ctx, dec, loop, p, k)
+                s = summarise(ctx, dec, loop, p, k, case)
                 cur = decoder_cursor(s)
                 stores = [(t, v) for arr, sts in s['stores'].items() for t, v in sts]
                 offs = {}
